@@ -133,9 +133,10 @@ def run_case(p, r):
 
 # ---- generators ------------------------------------------------------------------------------------------
 def rand_problem(rng, nmax=5, kmax=5, head_left=None, nbest=1, unary=True, beta=None, pruning=None, lo=40, max_step=None, dense=0.35):
-    n = rng.randint(1, nmax)
+    unary_heavy = unary and rng.random() < 0.15      # short sentences whose parses need chains of unary rules
+    n = rng.randint(1, 2) if unary_heavy else rng.randint(1, nmax)
     K = rng.randint(2, kmax)            # lexical categories 0..K-1; derived categories may be K..K+2
-    ncat = K + rng.randint(0, 2)
+    ncat = K + (rng.randint(1, 3) if unary_heavy else rng.randint(0, 2))
     mixed = head_left == 'mixed'            # results of one pair may differ in head direction (not head-uniform)
     hl = rng.random() < 0.5 if head_left in (None, 'mixed') else head_left
     binary = {}
@@ -147,11 +148,20 @@ def rand_problem(rng, nmax=5, kmax=5, head_left=None, nbest=1, unary=True, beta=
     if unary:
         # acyclic: a unary rule only leads to a larger category id
         for x in range(ncat - 1):
-            if rng.random() < 0.3:
+            if rng.random() < (0.8 if unary_heavy else 0.3):
                 un[x] = sorted({rng.randrange(x + 1, ncat) for _ in range(rng.choice([1, 1, 2]))})
     roots = [c for c in range(ncat) if rng.random() < 0.5] or [rng.randrange(ncat)]
+    if unary_heavy and rng.random() < 0.6:
+        roots = [ncat - 1]                # reachable only through the longest chains
     tag = [[-v / 8.0 for v in rng.sample(range(0, lo + 1), K)] for _ in range(n)]      # distinct within a row: the beam is unambiguous
     dep = [[-rng.randint(0, lo) / 8.0 for _ in range(n + 1)] for _ in range(n)]
+    if rng.random() < 0.15:
+        # log-probabilities whose float32 exp() underflows to 0 (below about -104); the best tag of a row stays in the normal range
+        for row in tag:
+            b = max(range(K), key=lambda c: row[c])
+            for c in range(K):
+                if c != b and rng.random() < 0.4:
+                    row[c] = -rng.randint(840, 1040) / 8.0
     use_beta = beta if beta is not None else rng.random() < 0.4
     theta_odd = rng.choice([1, 3, 7, 15, 31, 63]) if use_beta else None
     pr = pruning if pruning is not None else rng.choice([1, 2, 3, 50])
